@@ -304,6 +304,26 @@ def freezing_gen(gen):
     return g
 
 
+def scenarios(kitname):
+    """scripted openings of some histories: states that random walks reach only rarely"""
+    from .hg import mkop
+
+    if kitname != "H":
+        return []
+    A = lambda m, i: mkop("add_edge", m=m, id=i)  # noqa: E731
+    M = lambda r, rule="first": mkop("merge_duplicate_edges", s1=r, s2=rule)  # noqa: E731
+    return [
+        # merging under tuple ids twice: the second tuple id is already carried by the first merge result
+        [A([1, 2], 0), A([1, 2], 1), M("tuple"), A([3, 4], 0), A([3, 4], 1), M("tuple")],
+        [A([1, 2], 0), A([1, 2], 1), A([0, 5], 2), M("tuple"), A([3], 0), A([3], 1), M("tuple", "union")],
+        # ids freed by a merge and used again
+        [A([1, 2], 0), A([1, 2], 1), M("first"), A([2, 3], 1), A([2, 3], -1), M("new")],
+        # removal, explicit id below the counter, automatic ids
+        [A([0, 1], -1), A([1, 2], -1), A([2, 3], -1), mkop("remove_edge", e=1), A([4, 5], 1), A([4], -1),
+         mkop("remove_node", n=4, b1=False), A([0, 4], -1)],
+    ]
+
+
 def _c2s_worker(args):
     kitname, hids, seed_, length, extra = args
     kit = _KITS[kitname]
@@ -318,8 +338,10 @@ def _c2s_worker(args):
     for hid in hids:
         rng = random.Random((seed_ << 20) + hid)
         g = kit.families[hid % len(kit.families)]()
+        sc_ = scenarios(kit.name)
+        start = sc_[hid % len(sc_)] if sc_ and hid < 4 * len(sc_) else ()
         out += drive_hg.run_history(f"{kit.name}{hid}", rng, length, gamma=g, nn=kit.nn, cls=kit.cls,
-                                    call=kit.call, proj=kit.proj, gen=domain_gen(gen, g), obs=kit.obs, **extra)
+                                    call=kit.call, proj=kit.proj, gen=domain_gen(gen, g), obs=kit.obs, start_ops=start, **extra)
     return out
 
 
